@@ -1,6 +1,7 @@
 package c17
 
 import (
+	stdjson "encoding/json"
 	"fmt"
 	"math/rand"
 	"strings"
@@ -317,6 +318,7 @@ type lexCase struct {
 	req   string // model request ("" = none)
 	file  string
 	text  string
+	other []runFile // the other files of the run (facade.go)
 }
 
 // lexMut: a random one-byte edit of an accepted schema text (anywhere, any byte): no construction tells where the
@@ -372,7 +374,9 @@ func runLexPos(rep *vh.Report) {
 		}
 		if cm := renderComplaint(c.got, c.file, []byte(c.text)); cm != "" {
 			rep.AddDiff(vh.Diff{Component: "C17-lex-pos", Input: c.in, Impl: cm + " | " + c.got.String(), Model: demand + ", rendered with the line number, left-trimmed source line and caret of that offset"})
+			continue
 		}
+		reportFacade(rep, c.in, c.got, runFile{"the text with the planted error", c.file, []byte(c.text)}, c.other)
 	}
 }
 
@@ -479,10 +483,22 @@ func lexSchema(rep *vh.Report) (cases []lexCase) {
 				rep.AddDiff(vh.Diff{Component: "C17-lex-pos", Input: in, Impl: got.desc, Model: "a positioned error, rendering never panics"})
 				continue
 			}
-			cases = append(cases, lexCase{in: in, want: pl.want, label: pl.label, got: got.obs, req: "sscan E " + vh.Hex([]byte(pl.text)), file: nm.fileOf(victim), text: pl.text})
+			var other []runFile
+			if victim != "root" {
+				other = []runFile{{"the root schema text", nm.root, []byte(rootText)}}
+			}
+			cases = append(cases, lexCase{in: in, want: pl.want, label: pl.label, got: got.obs, req: "sscan E " + vh.Hex([]byte(pl.text)), file: nm.fileOf(victim), text: pl.text, other: other})
 		}
 	}
 	return cases
+}
+
+func decodedString(lit string) string {
+	var v string
+	if err := stdjson.Unmarshal([]byte(lit), &v); err != nil {
+		return lit
+	}
+	return v
 }
 
 // lexEnum: enum rule texts `[ v, v, … ]` of distinct scalars.
@@ -502,6 +518,8 @@ func lexEnum(rep *vh.Report) (cases []lexCase) {
 				ok = v[0] == '"' || !strings.ContainsAny(v, "eE") || v == "true" || v == "false"
 				for _, x := range items {
 					ok = ok && !strings.HasPrefix(x, v) && !strings.HasPrefix(v, x)
+					// distinct as VALUES too: two spellings of one string ("/" and "\/") are a duplicate item
+					ok = ok && !(v[0] == '"' && x[0] == '"' && decodedString(v) == decodedString(x))
 				}
 			}
 			items = append(items, v)
@@ -586,7 +604,9 @@ func lexJSON(rep *vh.Report) {
 		}
 		if cm := renderComplaint(got, name, []byte(pl.text)); cm != "" {
 			rep.AddDiff(vh.Diff{Component: "C17-lex-pos", Input: in, Impl: cm + " | " + got.String(), Model: demand + ", rendered with the line number, left-trimmed source line and caret of that offset"})
+			continue
 		}
+		reportFacade(rep, in, got, runFile{"the document text", name, []byte(pl.text)}, nil)
 	}
 }
 
@@ -603,7 +623,7 @@ func lexRegex(rep *vh.Report) {
 		txt := "/" + sb.String() + "/"
 		want, label := 0, ""
 		if r.Intn(2) == 0 {
-			txt, label = string(pickByte(r, "a\\ ^.[\"")) + txt[1:], "regex/first-byte-no-slash"
+			txt, label = string(pickByte(r, "a\\ ^.[\""))+txt[1:], "regex/first-byte-no-slash"
 		} else {
 			txt, label = txt[:len(txt)-1], "regex/closing-slash-missing"
 			want = len(txt) - 1
@@ -624,6 +644,8 @@ func lexRegex(rep *vh.Report) {
 		}
 		if cm := renderComplaint(got, name, []byte(txt)); cm != "" {
 			rep.AddDiff(vh.Diff{Component: "C17-lex-pos", Input: in, Impl: cm + " | " + got.String(), Model: demand})
+			continue
 		}
+		reportFacade(rep, in, got, runFile{"the regex text", name, []byte(txt)}, nil)
 	}
 }
